@@ -112,6 +112,13 @@ func (o *CandidateNode) UnmarshalYAML(node *yaml.Node, anchorMap map[string]*Can
 		log.Debug("UnmarshalYAML - alias from yaml: %v", o.Tag)
 		o.Kind = AliasNode
 		o.copyFromYamlNode(node, anchorMap)
+		// an alias inside the node it refers to makes the document cyclic; printing, copying and
+		// exploding it would recurse for ever (yaml.v3 rejects this too when decoding into values)
+		for ancestor := o.Parent; ancestor != nil && o.Alias != nil; ancestor = ancestor.Parent {
+			if ancestor == o.Alias {
+				return fmt.Errorf("anchor '%v' value contains itself", o.Alias.Anchor)
+			}
+		}
 		return nil
 	case yaml.ScalarNode:
 		log.Debugf("UnmarshalYAML -  a scalar")
